@@ -345,8 +345,8 @@ func runS(c SCase) (pbt.Result, error) {
 
 var _ = pbt.Register(pbt.Spec[SCase]{
 	Property: "C09", Name: "stream-faults",
-	Rule:     "the same step vocabulary as fault-enumeration, but over the repository's own stream transports (plain and packed) on a harness-owned byte pipe without deadline support. The scenario is run fault-free to count the pipe's Write calls W and Read calls R; it is then re-run for EVERY Write index (failing after accepting 0 or a drawn number of bytes, always short of the buffer) and EVERY Read index (delivering 0 or a drawn number of bytes, then an error or EOF). Oracle per run: the termination/cleanup oracle of fault-enumeration, the stream is closed, and once a failed Write left the stream in the middle of a frame (judged by an independent frame/packing parser) no later byte is written into it. Non-trivial: a call was pending when the stream failed.",
-	Quick:    40, Thorough: 400,
+	Rule:  "the same step vocabulary as fault-enumeration, but over the repository's own stream transports (plain and packed) on a harness-owned byte pipe without deadline support. The scenario is run fault-free to count the pipe's Write calls W and Read calls R; it is then re-run for EVERY Write index (failing after accepting 0 or a drawn number of bytes, always short of the buffer) and EVERY Read index (delivering 0 or a drawn number of bytes, then an error or EOF). Oracle per run: the termination/cleanup oracle of fault-enumeration, the stream is closed, and once a failed Write left the stream in the middle of a frame (judged by an independent frame/packing parser) no later byte is written into it. Non-trivial: a call was pending when the stream failed.",
+	Quick: 40, Thorough: 400,
 	Gen: func(t *rapid.T) SCase {
 		c := SCase{Packed: rapid.Bool().Draw(t, "packed"), Keeps: []int{0, rapid.IntRange(1, 4000).Draw(t, "keep")}}
 		for i, n := 0, rapid.IntRange(2, 8).Draw(t, "n"); i < n; i++ {
